@@ -41,6 +41,7 @@ theorem matchLen_le (p : Pat) (cs : List CChar) : matchLen p cs ≤ cs.length :=
     · omega
   | space => exact runLen_le _ cs
   | comma => exact runLen_le _ cs
+  | nonspace => exact runLen_le _ cs
 
 /-- every span lies inside the scanned part, is non-empty, and the spans follow each other -/
 theorem scan_spans (p : Pat) (cs : List CChar) (off : Nat) :
@@ -353,5 +354,56 @@ theorem stopFilter_pos (c : StopCfg) (hrs : c.removestops = true) (ts : List Tok
           rw [← hp hr']; exact this
       · simp only [hk, Bool.false_eq_true, if_false, hrs, Bool.not_true]
         exact ih pos h2
+
+/-- which texts come out of the stop filter: those of the tokens it keeps, and of the others too
+    when `removestops` is off -/
+theorem stopFilter_text_iff (c : StopCfg) (ts : List Token) (pos : Option Nat) (w : Str) :
+    (∃ x ∈ stopFilter c ts pos, x.text = w) ↔
+    (∃ y ∈ ts, y.text = w ∧ (c.keeps w = true ∨ c.removestops = false)) := by
+  induction ts generalizing pos with
+  | nil => simp [stopFilter]
+  | cons t rest ih =>
+    have step : ∀ (t' : Token) (pos' : Option Nat), t'.text = t.text →
+        (c.keeps t.text = true ∨ c.removestops = false) →
+        ((∃ x ∈ t' :: stopFilter c rest pos', x.text = w) ↔
+         (∃ y ∈ t :: rest, y.text = w ∧ (c.keeps w = true ∨ c.removestops = false))) := by
+      intro t' pos' ht hk
+      constructor
+      · rintro ⟨x, hx, hw⟩
+        simp only [List.mem_cons] at hx
+        rcases hx with rfl | hx
+        · exact ⟨t, by simp, by rw [← ht]; exact hw, by rw [← hw, ht]; exact hk⟩
+        · obtain ⟨y, hy, r⟩ := (ih pos').1 ⟨x, hx, hw⟩
+          exact ⟨y, by simp [hy], r⟩
+      · rintro ⟨y, hy, hw, hk'⟩
+        simp only [List.mem_cons] at hy
+        rcases hy with rfl | hy
+        · exact ⟨t', by simp, by rw [ht]; exact hw⟩
+        · obtain ⟨x, hx, r⟩ := (ih pos').2 ⟨y, hy, hw, hk'⟩
+          exact ⟨x, by simp [hx], r⟩
+    simp only [stopFilter]
+    split
+    · next hk =>
+      split
+      · split
+        · exact step _ _ rfl (Or.inl hk)
+        · exact step _ _ rfl (Or.inl hk)
+      · exact step _ _ rfl (Or.inl hk)
+    · next hk =>
+      split
+      · next hr => exact step _ _ rfl (Or.inr (by simpa using hr))
+      · next hr =>
+        rw [ih pos]
+        constructor
+        · rintro ⟨y, hy, r⟩; exact ⟨y, by simp [hy], r⟩
+        · rintro ⟨y, hy, hw, hk'⟩
+          simp only [List.mem_cons] at hy
+          rcases hy with rfl | hy
+          · exfalso
+            rw [← hw] at hk'
+            rcases hk' with h1 | h1
+            · exact hk h1
+            · simp [h1] at hr
+          · exact ⟨y, hy, hw, hk'⟩
 
 end WM.Analysis
